@@ -17,6 +17,7 @@ CLAIMED = {
  "C20": ("seeded simulation of wrappers with inner-getter faults and inner-settable rejections; PID wrapper against a separately driven CommandPID twin", "5 C20"),
  "C15": ("seeded op histories over settables / followers / history adapters with rejected sets, erroring followed getters, clock jumps (both directions) and clock errors, against a small reference model", "5 C15"),
  "C17": ("(a) seeded clone/drop/to_dyn!/borrow histories over all six variants with a drop tracker, from crates with and without alloc/std features; (b) shuttle-controlled thread schedules (seeded random + PCT) over Arc<Mutex>/Arc<RwLock> References: conservation + register linearizability, replayable schedule files", "5 C17"),
+ "C16": ("scratch-slot clause: seeded/enumerated arity x absent-pattern plans run natively with poisoned scratch memory (hook) and interpreted by Miri; dangling clause: device-crash fault (drop / move with a live terminal link) in forbid(unsafe_code) programs under Miri; 11 unsound accessors recorded as KNOWN-FINDING", "5 C16"),
 }
 NOT_APPLICABLE = {
  "C01": "pure function of (unit, unit, operator): no state, seam, clock, fault or order for a simulator to control; deterministic simulation with fault injection does not apply (DESIGN.md section 0)",
@@ -60,6 +61,7 @@ m = {
  },
  "engines": [
    {"name": "rrtk-sim", "path": "/verif/sim", "serves_properties": sorted(CLAIMED), "kind_free_text": "plan/execute deterministic simulator with seeded fault injection, reference-model and twin/restart oracles, ddmin minimisation, replay files"},
+   {"name": "rrtk-miri", "path": "/verif/miri", "serves_properties": ["C16"], "kind_free_text": "forbid(unsafe_code) programs (scratch-slot sweep, device-crash shapes) interpreted by Miri, one process per shape"},
    {"name": "rrtk-shuttle", "path": "/verif/shuttle", "serves_properties": ["C17"], "kind_free_text": "shuttle (controlled scheduler: seeded random + PCT) scenarios over Reference with persisted, replayable schedules"},
  ],
  "checks": checks,
